@@ -100,14 +100,14 @@ type Violation struct {
 
 // record is one JSON line written by the child.
 type record struct {
-	T         string             `json:"t"` // viol | inc | sum | note
-	Violation *Violation         `json:"violation,omitempty"`
-	Reason    string             `json:"reason,omitempty"`
-	Counters  map[string]int64   `json:"counters,omitempty"`
-	Max       map[string]int64   `json:"max,omitempty"`
-	Distinct  []uint64           `json:"distinct,omitempty"`
-	DistinctN int64              `json:"distinct_n,omitempty"`
-	Samples   []json.RawMessage  `json:"samples,omitempty"`
+	T         string              `json:"t"` // viol | inc | sum | note
+	Violation *Violation          `json:"violation,omitempty"`
+	Reason    string              `json:"reason,omitempty"`
+	Counters  map[string]int64    `json:"counters,omitempty"`
+	Max       map[string]int64    `json:"max,omitempty"`
+	Distinct  []uint64            `json:"distinct,omitempty"`
+	DistinctN int64               `json:"distinct_n,omitempty"`
+	Samples   []json.RawMessage   `json:"samples,omitempty"`
 	Sets      map[string][]string `json:"sets,omitempty"`
 }
 
